@@ -28,6 +28,7 @@ pub struct Weights {
     pub rogue_proposal: u32,
     pub rogue_msg: u32,
     pub replay: u32,
+    pub hostile: u32,
 }
 
 impl Default for Weights {
@@ -54,6 +55,7 @@ impl Default for Weights {
             rogue_proposal: 0,
             rogue_msg: 0,
             replay: 0,
+            hostile: 0,
         }
     }
 }
@@ -176,6 +178,25 @@ pub fn op_strategy(w: &Weights) -> BoxedStrategy<Op> {
                 .boxed(),
         ));
         v.push((w.replay, (m, any::<u16>()).prop_map(|(m, sel)| Op::Replay { m, sel }).boxed()));
+        use crate::world::HostileMut as H;
+        let hm = prop_oneof![
+            prop::sample::select(vec![
+                H::KindChange, H::TsZero, H::TsFarFuture, H::TsTooOld, H::NoHTag, H::TwoHTags, H::HNotHex, H::HUpperCase, H::HShort,
+                H::HOfUnknownGroup, H::ContentNotBase64, H::ContentTruncated, H::ContentEmpty, H::InnerEmpty, H::HeaderGroupId, H::BackdatedCopy,
+            ]),
+            any::<u8>().prop_map(H::InnerRandom),
+            any::<u16>().prop_map(H::InnerBitFlip),
+            any::<u16>().prop_map(H::InnerBitFlip),
+            any::<u8>().prop_map(H::InnerTruncate),
+            any::<u8>().prop_map(H::InnerExtend),
+            (-3i8..4).prop_map(|d| H::HeaderEpoch(if d == 0 { 1 } else { d })),
+            (-3i8..4).prop_map(|d| H::HeaderEpoch(if d == 0 { -1 } else { d })),
+            (0u8..3).prop_map(H::HeaderContentType),
+        ];
+        v.push((
+            w.hostile,
+            (m, any::<u16>(), any::<u16>(), hm).prop_map(|(m, v, sel, mutation)| Op::Hostile { m, v, sel, mutation }).boxed(),
+        ));
     }
     let v: Vec<(u32, BoxedStrategy<Op>)> = v.into_iter().filter(|(w, _)| *w > 0).collect();
     proptest::strategy::Union::new_weighted(v).boxed()
